@@ -4,6 +4,9 @@ Import ListNotations.
 From JB Require Import Constants Bytes Num Value TreeOps.
 Open Scope N_scope.
 
+(* DOMAIN: Index::Index(i32) / Index::LastIndex(i32) in the code; here any Z.  The theorems about paths hold for all Z; the
+   code's domain is the part where every index is an i32, which is all parse_json_path produces
+   (PathI32.parsed_json_path_indices_are_i32). *)
 Inductive index := IIndex (i : Z) | ILast (i : Z).
 Inductive array_index := AIndex (i : index) | ASlice (s e : index).
 Inductive pvalue := PVNull | PVBool (b : bool) | PVNum (n : num) | PVStr (s : list N).
